@@ -48,7 +48,14 @@ func c13BuildStream(r *gen.R, listener string, connIdx int, ups []string) (*c13C
 		name := fmt.Sprintf("ok-n%d-d%d-c%dq%d.%s.test.", r.Range(1, 6), r.Intn(41), connIdx, i, up)
 		id := uint16(i*1009 + connIdx*7 + 1)
 		qt := gen.Pick(r, []uint16{dns.TypeA, dns.TypeAAAA, dns.TypeTXT, dns.TypeMX})
-		w := mkQuery(id, name, qt, dns.ClassINET, r.P(0.5))
+		edns := r.P(0.5)
+		if connIdx%8 == 3 && i == k/2 {
+			// one response that is as large as a frame can be: the upstream's reply has 65524..65535
+			// octets and the client used EDNS0 (the proxy's own OPT record makes it exceed 65535)
+			up, edns = "pipe", true
+			name = fmt.Sprintf("ok-exact%d-c%dq%d.pipe.test.", 65524+(connIdx/8)%12, connIdx, i)
+		}
+		w := mkQuery(id, name, qt, dns.ClassINET, edns)
 		stream = append(stream, dnsclient.Frame(w)...)
 		ids = append(ids, id)
 		qs = append(qs, dns.Question{Name: name, Qtype: qt, Qclass: dns.ClassINET})
